@@ -134,6 +134,19 @@ def end_to_end(scope, na, nb):
     elif scope == "instance":
         top.create_child(name=na, reference=leaf)
         top.create_child(name=nb, reference=leaf)
+    elif scope == "port-cross-scope":
+        # each spelling alone in an earlier cell, both together in a later one
+        work.create_definition(name="only_a").create_port(name=na, direction=s.IN, pins=1)
+        work.create_definition(name="only_b").create_port(name=nb, direction=s.IN, pins=1)
+        both = work.create_definition(name="both")
+        both.create_port(name=na, direction=s.IN, pins=1)
+        both.create_port(name=nb, direction=s.OUT, pins=1)
+    elif scope == "net-cross-scope":
+        work.create_definition(name="only_a").create_cable(name=na, wires=1)
+        work.create_definition(name="only_b").create_cable(name=nb, wires=1)
+        both = work.create_definition(name="both")
+        both.create_cable(name=na, wires=1)
+        both.create_cable(name=nb, wires=1)
     n.top_instance = top
     n.top_instance.name = na if scope == "top-instance" else "t"
     if scope == "netlist":
@@ -216,6 +229,9 @@ def cases(tier):
                 continue  # name[i] on a net is, by the reader's documented convention (C05), bit i of bus 'name'
             if tier == "thorough" or (e2e_names.index(na) + e2e_names.index(nb)) % 3 == 0 or na.lower() == nb.lower():
                 out.append(("e2e", scope, na, nb, "asc"))
+    for na, nb in (("D", "d"), ("d", "D"), ("aB", "Ab"), ("x1", "X1"), ("a-b", "A-b")):
+        out.append(("e2e", "port-cross-scope", na, nb, "asc"))
+        out.append(("e2e", "net-cross-scope", na, nb, "asc"))
     for nm in e2e_names:
         out.append(("e2e", "top-instance", nm, "b", "asc"))
         out.append(("e2e", "netlist", nm, "b", "asc"))
